@@ -201,6 +201,7 @@ def _install_core(reg):
                                    z3.ForAll([x, y], z3.Implies(z3.And(0 <= x, x < o.K, 0 <= y, y < o.K, z3.Not(z3.And(x == p, y == r))), z3.And(
                                        v.edge[x][y] == o.edge[x][y], v.motifs[x][y] == o.motifs[x][y], v.motif0[x][y] == o.motif0[x][y])))))),
             ("depth.never_decreases", z3.ForAll([i], z3.Implies(z3.And(0 <= i, i < o.K), v.depth[i] >= o.depth[i]))),
+            ("extends_unless_parent_expanded", z3.Implies(z3.Or(par_none, z3.Not(o.expanded[p])), S.ext(v, o))),
         ] + [("inv." + nm, g) for nm, g in S.inv(v, exempt=z3.If(par_none, -1, p))]
 
     reg.add(Contract(
@@ -216,7 +217,7 @@ def _install_core(reg):
                            "edge", "motifs", "motif0", "succsig", "depth", "index"]},
         ensures=[(nm, (lambda k: (lambda c: dict(en_post(c))[k]))(nm)) for nm in
                  ["result_valid", "at_most_one_new_node", "net_unchanged", "new_node_is_clean_stub", "old_nodes_unchanged", "edges",
-                  "depth.never_decreases"] + ["inv." + nm for nm, _ in S.inv(M.View(_dummy_ho()))]],
+                  "depth.never_decreases", "extends_unless_parent_expanded"] + ["inv." + nm for nm, _ in S.inv(M.View(_dummy_ho()))]],
         lemmas=[("L2.perc_trap", lem_perc), ("L10.key_injective", lem_keyinj)],
     ), method_of="SD")
 
@@ -300,6 +301,7 @@ def _install_expand(reg):
                     v.K == o.K, S.frame_nodes(v, o, fields=NODEF + ("succsig", "depth")), S.frame_edges(v, o), v.index == o.index))),
                 ("caches_discarded", z3.Implies(z3.Not(o.expanded[n]), node_cleared(v, n))),
                 ("others_unchanged", others_unchanged(v, o, n)),
+                ("extends_entry_diagram", S.ext(v, o)),
                 ] + [("inv." + nm, g) for nm, g in S.inv(v)]
 
     def exp_raise(c):
@@ -310,6 +312,7 @@ def _install_expand(reg):
                 ("diagram_unchanged", z3.And(v.K == o.K, v.index == o.index, S.frame_edges(v, o),
                                              S.frame_nodes(v, o, except_ids=(n,), fields=NODEF + ("succsig", "depth")),
                                              v.space[n] == o.space[n], v.depth[n] == o.depth[n])),
+                ("extends_entry_diagram", S.ext(v, o)),
                 ] + [("inv." + nm, g) for nm, g in S.inv(v)]
 
     INVN = [nm for nm, _ in S.inv(M.View(_dummy_ho()))]
@@ -321,6 +324,7 @@ def _install_expand(reg):
                                         S.valid(v, n))),
             ("signature_so_far", v.succsig[n] == S.FoldSig(N(o), c.coll, c.i)),
             ("others_unchanged", others_unchanged(v, o, n)),
+            ("extends_entry_diagram", S.ext(v, o)),
         ]
 
     reg.add(Contract(
@@ -333,9 +337,9 @@ def _install_expand(reg):
                            "edge", "motifs", "motif0", "succsig", "depth", "index"]},
         may_raise={"RuntimeError": {"modifies": {"self": ["cand", "seeds", "sets", "ppn"]}}},
         ensures=[(nm, (lambda k: (lambda c: dict(exp_post(c))[k]))(nm)) for nm in
-                 ["expanded", "node_identity", "noop_if_already_expanded", "caches_discarded", "others_unchanged"] + ["inv." + x for x in INVN]],
+                 ["expanded", "node_identity", "noop_if_already_expanded", "caches_discarded", "others_unchanged", "extends_entry_diagram"] + ["inv." + x for x in INVN]],
         raises={"RuntimeError": [(nm, (lambda k: (lambda c: dict(exp_raise(c))[k]))(nm)) for nm in
-                                 ["still_unexpanded_without_successors", "nothing_cached", "diagram_unchanged"] + ["inv." + x for x in INVN]]},
+                                 ["still_unexpanded_without_successors", "nothing_cached", "diagram_unchanged", "extends_entry_diagram"] + ["inv." + x for x in INVN]]},
         lemmas=[("L4+L5.max_traps_global+restricted", lem_glue), ("L2.max_trap_facts+L3.no_max_trap_in_fixed_point", lem_facts)],
         loops={0: LoopContract("for sub_space in sub_spaces", loop_inv,
                                havoc_heap={"self": ["K", "space", "expanded", "skipped", "parent", "cand", "seeds", "sets", "ppn", "pbn",
@@ -356,6 +360,7 @@ def _install_expand(reg):
                     v.K == o.K, S.frame_nodes(v, o, fields=NODEF + ("succsig", "depth")), S.frame_edges(v, o), v.index == o.index))),
                 ("caches_discarded", z3.Implies(z3.Not(o.expanded[n]), node_cleared(v, n))),
                 ("others_unchanged", others_unchanged(v, o, n)),
+                ("extends_entry_diagram", S.ext(v, o)),
                 ] + [("inv." + nm, g) for nm, g in S.inv(v)]
 
     reg.add(Contract(
@@ -369,9 +374,9 @@ def _install_expand(reg):
         may_raise={"RuntimeError": {"modifies": {"self": ["cand", "seeds", "sets", "ppn"]}, "when": lambda c: z3.And(c.compute, z3.Not(c.self.expanded[c.node_id]))},
                    "KeyError": {"only_when": lambda c: z3.And(z3.Not(c.compute), z3.Not(c.self.expanded[c.node_id]))}},
         ensures=[(nm, (lambda k: (lambda c: dict(ns_post(c))[k]))(nm)) for nm in
-                 ["expanded", "result_is_successor_set", "noop_if_already_expanded", "caches_discarded", "others_unchanged"] + ["inv." + x for x in INVN]],
+                 ["expanded", "result_is_successor_set", "noop_if_already_expanded", "caches_discarded", "others_unchanged", "extends_entry_diagram"] + ["inv." + x for x in INVN]],
         raises={"RuntimeError": [(nm, (lambda k: (lambda c: dict(exp_raise(c))[k]))(nm)) for nm in
-                                 ["still_unexpanded_without_successors", "nothing_cached", "diagram_unchanged"] + ["inv." + x for x in INVN]],
+                                 ["still_unexpanded_without_successors", "nothing_cached", "diagram_unchanged", "extends_entry_diagram"] + ["inv." + x for x in INVN]],
                 "KeyError": [("nothing_changed", lambda c: z3.And(
                     c.self.K == c.old.self.K, S.frame_nodes(c.self, c.old.self, fields=NODEF + ("succsig", "depth")),
                     S.frame_edges(c.self, c.old.self), c.self.index == c.old.self.index,
